@@ -12,11 +12,30 @@ RULE = ("generated: exhaustive buffers of 0-2 bytes over an 8-value alphabet x e
 ASSUMPTIONS = ["int.from_bytes / bytes slicing / int.to_bytes are CPython's"]
 
 
+PK = "space_packet_parser/packets.py"
+CALLEES = {"_extract_bits": "gen_extract_bits"}
+ACCESSORS = ["version_number", "type", "secondary_header_flag", "apid", "sequence_flags", "sequence_count", "data_length"]
+
+
+def fun_items():
+    """what the translator regenerates from packets.py: _extract_bits, the two cursor methods, the header accessors"""
+    items = [(PK, "_extract_bits", "gen_extract_bits"),
+             ("method", PK, "RawPacketData", "read_as_int", "gen_read_as_int", CALLEES),
+             ("method", PK, "RawPacketData", "read_as_bytes", "gen_read_as_bytes", CALLEES)]
+    props = {}
+    for n in ACCESSORS:
+        items.append(("property", PK, "RawPacketData", n, "gen_" + n, CALLEES, dict(props)))
+        props[n] = "gen_" + n
+    items.append(("property", PK, "RawPacketData", "header_values", "gen_header_values", CALLEES, dict(props)))
+    return items
+
+
 def tables():
-    """the translated part of the model: packets._extract_bits is turned into Gallina from the current source and proved equal
-    to Model/Cursor.v's extract_bits (Gen/FunOk_C03.v) on every run"""
+    """the translated part of the model: packets._extract_bits, RawPacketData.read_as_int / read_as_bytes and the header accessors
+    are turned into Gallina from the current source and proved equal to Model/Cursor.v's extract_bits / read_as_int /
+    read_as_bytes and Model/Header.v's header_values (Gen/FunOk_C03.v) on every run"""
     import gen_fun
-    return gen_fun.check("C03", [("space_packet_parser/packets.py", "_extract_bits", "gen_extract_bits")], "FunOk_C03")
+    return gen_fun.check("C03", fun_items(), "FunOk_C03")
 
 
 def gen(rng, tier):
